@@ -158,29 +158,125 @@ def build_harness(name, sources, variant='plain', units=('mir', 'mir-gen'), defs
 
 # ---------------------------------------------------------------- Coq
 
+def coq_files():
+    vs = sorted(glob.glob(os.path.join(COQDIR, '**', '*.v'), recursive=True))
+    return [os.path.relpath(v, COQDIR) for v in vs if '/.' not in v]
+
+
 def coq_setup():
-    """(re)generate coq/Makefile from _CoqProject + all .v files present"""
-    with Lock('coq'):
-        vs = sorted(glob.glob(os.path.join(COQDIR, '**', '*.v'), recursive=True))
-        vs = [os.path.relpath(v, COQDIR) for v in vs if '/.' not in v]
-        proj = '-Q . MirV\n-arg -w -arg -all\n' + '\n'.join(vs) + '\n'
-        pp = os.path.join(COQDIR, '_CoqProject')
-        old = open(pp).read() if os.path.exists(pp) else ''
-        if old != proj or not os.path.exists(os.path.join(COQDIR, 'Makefile')):
-            open(pp, 'w').write(proj)
-            sh(['coq_makefile', '-f', '_CoqProject', '-o', 'Makefile'], cwd=COQDIR, check=True)
+    """write coq/_CoqProject (for coqchk / interactive use); the checks build with coq_make below"""
+    proj = '-Q . MirV\n-arg -w -arg -all\n' + '\n'.join(coq_files()) + '\n'
+    pp = os.path.join(COQDIR, '_CoqProject')
+    old = open(pp).read() if os.path.exists(pp) else ''
+    if old != proj:
+        open(pp + '.tmp%d' % os.getpid(), 'w').write(proj)
+        os.rename(pp + '.tmp%d' % os.getpid(), pp)
+
+
+def coq_deps(vfiles):
+    """{file.v: [local dep .v files]} for the transitive closure of vfiles, via coqdep"""
+    deps = {}
+    todo = list(vfiles)
+    while todo:
+        batch = [f for f in todo if f not in deps]
+        todo = []
+        if not batch:
+            break
+        rc, out, err = sh(['coqdep', '-Q', '.', 'MirV'] + batch, cwd=COQDIR)
+        for line in out.split('\n'):
+            m = re.match(r'^(\S+)\.vo\b[^:]*:\s*(.*)$', line)
+            if not m:
+                continue
+            f = os.path.normpath(m.group(1) + '.v')
+            ds = [os.path.normpath(d[:-3] + '.v') for d in m.group(2).split() if d.endswith('.vo')]
+            ds = [d for d in ds if d != f and not d.startswith('/') and not d.startswith('..')]
+            deps[f] = ds
+            todo += [d for d in ds if d not in deps]
+        for f in batch:
+            deps.setdefault(f, [])
+    return deps
+
+
+def _coqc_one(f, deps, timeout):
+    """compile coq/f if stale (full .vo); returns (ok, log)"""
+    src = os.path.join(COQDIR, f)
+    vo = src[:-2] + '.vo'
+    with Lock('coq-' + f.replace('/', '_')):
+        if os.path.exists(vo):
+            t = os.path.getmtime(vo)
+            fresh = os.path.getmtime(src) <= t and all(
+                os.path.exists(os.path.join(COQDIR, d[:-2] + '.vo')) and os.path.getmtime(os.path.join(COQDIR, d[:-2] + '.vo')) <= t
+                for d in deps)
+            if fresh:
+                return True, ''
+        t0 = time.time()
+        rc, out, err = sh(['timeout', str(timeout), 'coqc', '-q', '-w', '-all', '-Q', '.', 'MirV', f], cwd=COQDIR)
+        log = 'COQC %s (%.1fs)\n%s%s' % (f, time.time() - t0, out, err)
+        if rc != 0:
+            try:
+                os.remove(vo)
+            except OSError:
+                pass
+            if rc == 124:
+                log += '\n[coqc timed out after %ss]' % timeout
+        return rc == 0 and os.path.exists(vo), log
 
 
 def coq_make(targets, timeout=3000, jobs=None):
-    """Build the given .vo targets (paths relative to coq/). Returns {target: (ok, log)}.
-    Full .vo build; never -vos."""
+    """Build the given .vo targets (paths relative to coq/) and everything they depend on, in
+    parallel, each file under its own lock (so concurrent checks never build one file twice at
+    once).  Full .vo compilation with coqc; never -vos.  Returns {target: (ok, log)}."""
+    from concurrent.futures import ThreadPoolExecutor
     coq_setup()
+    vfiles = [os.path.normpath(t[:-3] + '.v') for t in targets]
+    deps = coq_deps(vfiles)
+    status = {}  # f -> (ok, log)
+    order = []
+    seen = set()
+
+    def visit(f):
+        if f in seen:
+            return
+        seen.add(f)
+        for d in deps.get(f, []):
+            visit(d)
+        order.append(f)
+    for f in vfiles:
+        visit(f)
+    pending = list(order)
+    futures = {}
+    with ThreadPoolExecutor(max_workers=jobs or NCPU) as ex:
+        while pending or futures:
+            progressed = False
+            for f in list(pending):
+                ds = deps.get(f, [])
+                if any(d in status and not status[d][0] for d in ds):
+                    status[f] = (False, 'SKIPPED %s: a dependency failed\n' % f)
+                    pending.remove(f)
+                    progressed = True
+                elif all(d in status for d in ds):
+                    futures[f] = ex.submit(_coqc_one, f, ds, timeout)
+                    pending.remove(f)
+                    progressed = True
+            done = [f for f, fu in futures.items() if fu.done()]
+            for f in done:
+                status[f] = futures.pop(f).result()
+                progressed = True
+            if not progressed:
+                time.sleep(0.05)
     res = {}
-    with Lock('coq'):
-        for t in targets:
-            rc, out, err = sh(['timeout', str(timeout), 'make', '-k', '-j%d' % (jobs or NCPU), t], cwd=COQDIR)
-            ok = rc == 0 and os.path.exists(os.path.join(COQDIR, t))
-            res[t] = (ok, out + err)
+    for t, f in zip(targets, vfiles):
+        closure = []
+
+        def clo(x):
+            if x in closure:
+                return
+            for d in deps.get(x, []):
+                clo(d)
+            closure.append(x)
+        clo(f)
+        log = ''.join(status[x][1] for x in closure if x in status)
+        res[t] = (status.get(f, (False, ''))[0], log)
     return res
 
 
@@ -280,7 +376,7 @@ def coq_prove(prop_file, timeout=3000):
         discharged = 0
         log += '\nGATE FAILURES:\n' + '\n'.join(gate)
     return dict(obligations=len(thms), discharged=discharged, ok=ok, log=log, axioms=axioms, theorems=thms,
-                checker_cmd='make -k -C coq %s.vo  (coqc 8.16.1 full .vo build, Print Assumptions per theorem)' % prop_file)
+                checker_cmd='coqc -Q coq MirV coq/%s.v and its dependency closure (Coq 8.16.1, full .vo, Print Assumptions per theorem; tools/vlib.py coq_make)' % prop_file)
 
 
 def coq_failed_units(log):
